@@ -64,6 +64,10 @@ class InitialStateMixin:
                 raise UPExpressionDefinitionError(
                     f"Impossible to set the initial value of a fluent expression with no constant arguments: {fluent_exp}."
                 )
+        if not value_exp.is_constant():
+            raise UPTypeError(
+                f"The initial value of {fluent_exp} must be a constant: {value_exp} is not."
+            )
         if not fluent_exp.type.is_compatible(value_exp.type):
             raise UPTypeError("Initial value assignment has not compatible types!")
         self._initial_value[fluent_exp] = value_exp
